@@ -58,6 +58,7 @@ def voteVerify (H : Bytes → Bytes) (aux : VoteAux) (inp : VoteInput) : Verdict
       .pending (if flag then { aux with tallies := putAssoc aux.tallies id (false, voters') } else aux)
 
 def ETH_ROUTER : Nat := 2
+def QUORUM_ROUTER : Nat := 8
 
 /-- Oracles of the driver: the vote router is the model above; the eth router accepts exactly the inputs whose
 storage proof the harness built validly (`proofValid`); the ripple router collects votes in the same tallies
@@ -77,6 +78,12 @@ def voteOracles (H : Bytes → Bytes) : Oracles VoteAux VoteInput where
         | some p => .accept p s.aux
         | none => .reject "verify"
       else .reject "verify"
+    else if router = QUORUM_ROUTER then
+      -- the quorum router decodes the (still unverified) message and performs the done check before it verifies the
+      -- proof; the harness gives it no valid proof, so it always fails — with `done` when the id is already marked
+      match inp.decoded with
+      | some p => if (inp.src, p.crossChainID) ∈ s.done then .reject "done" else .reject "verify"
+      | none => .reject "verify"
     else .reject "verify"
   btcMake _ _ _ _ := none
   rippleMake _ _ _ _ := none
